@@ -186,6 +186,43 @@ def genRun {α : Type} (io : Io α) (op : String) (args : List Arg) : Option Str
   | "from_constant", [c] => do let c ← io.elem? c; pure (okP (Gen.Poly.from_constant c))
   | "zero", [] => pure (okP (Gen.Poly.zero : List α))
   | "one", [] => pure (okP (Gen.Poly.one F))
+  | "formal_derivative", [a] => do let a ← io.poly? a; pure (okP (Gen.Poly.formal_derivative F a))
+  | "neg", [a] => do let a ← io.poly? a; pure (okP (Gen.Poly.neg F a))
+  | "evaluate", [a, x] => do
+      let a ← io.poly? a; let x ← io.elem? x; pure ("ok:" ++ io.fmtE (Gen.Poly.evaluate F F.zero F.mul F.add a x))
+  | "shift_coefficients", [a, .nat n] => do
+      let a ← io.poly? a; if n > 100000 then none else pure (okP (Gen.Poly.shift_coefficients F a n))
+  | "scalar_mul", [a, s] => do let a ← io.poly? a; let s ← io.elem? s; pure (okP (Gen.Poly.scalar_mul F F.mul a s))
+  | "scalar_mul_mut", [a, s] => do let a ← io.poly? a; let s ← io.elem? s; pure (okP (Gen.Poly.scalar_mul_mut F F.mul a s))
+  | "scale", [a, s] => do let a ← io.poly? a; let s ← io.elem? s; pure (okP (Gen.Poly.scale F F.one F.mul F.mul a s))
+  | "truncate", [a, .nat k] => do let a ← io.poly? a; pure (okPO (Gen.Poly.truncate F a k))
+  | "mod_x_to_the_n", [a, .nat n] => do let a ← io.poly? a; pure (okPO (Gen.Poly.mod_x_to_the_n F a n))
+  | "add", [a, b] => do let a ← io.poly? a; let b ← io.poly? b; pure (okP (Gen.Poly.add F a b))
+  | "add_assign", [a, b] => do let a ← io.poly? a; let b ← io.poly? b; pure (okPO (Gen.Poly.add_assign F a b))
+  | "sub", [a, b] => do let a ← io.poly? a; let b ← io.poly? b; pure (okP (Gen.Poly.sub F a b))
+  | "mul", [a, b] => do
+      let a ← io.poly? a; let b ← io.poly? b; small a; small b; pure (okPO (Gen.Poly.mul F F F F.mul a b))
+  | "naive_multiply", [a, b] => do
+      let a ← io.poly? a; let b ← io.poly? b; small a; small b; pure (okPO (Gen.Poly.naive_multiply F F F F.mul a b))
+  | "slow_square", [a] => do let a ← io.poly? a; small a; pure (okPO (Gen.Poly.slow_square F a))
+  | "multiply", [a, b] => do
+      let a ← io.poly? a; let b ← io.poly? b; small a; small b
+      pure (okPO (Gen.Poly.multiply F F F F.mul (fastMultiply F io.T) a b))
+  | "square", [a] => do let a ← io.poly? a; small a; pure (okPO (Gen.Poly.square F (fastSquare F io.T) a))
+  | "fast_multiply", [a, b] => do
+      let a ← io.poly? a; let b ← io.poly? b
+      pure (okPO (Gen.Poly.fast_multiply F F F F.mul io.T.ntt io.T.ntt io.T.intt a b))
+  | "fast_square", [a] => do let a ← io.poly? a; pure (okPO (Gen.Poly.fast_square F io.T.ntt io.T.intt a))
+  | "divide", [a, d] => do
+      let a ← io.poly? a; let d ← io.poly? d; small a; small d
+      pure (match Gen.Poly.divide F a d with
+        | some (q, r) => "ok:" ++ io.fmtP (normalize F q) ++ "|" ++ io.fmtP (normalize F r) | none => "panic")
+  | "naive_divide", [a, d] => do
+      let a ← io.poly? a; let d ← io.poly? d; small a; small d
+      pure (match Gen.Poly.naive_divide F a d with
+        | some (q, r) => "ok:" ++ io.fmtP (normalize F q) ++ "|" ++ io.fmtP (normalize F r) | none => "panic")
+  | "div", [a, d] => do let a ← io.poly? a; let d ← io.poly? d; small a; small d; pure (okPO (Gen.Poly.div F a d))
+  | "rem", [a, d] => do let a ← io.poly? a; let d ← io.poly? d; small a; small d; pure (okPO (Gen.Poly.rem F a d))
   | _, _ => none
 
 /-- the hand model's reply, or `GEN-MISMATCH` when the regenerated definition answers differently -/
